@@ -154,10 +154,15 @@ func walkCustom(e parser.Expr, f func(parser.Expr)) {
 	}
 }
 
-func coqN(i int) string         { return fmt.Sprintf("%d%%N", i) }
-func coqZ(i int64) string       { return fmt.Sprintf("(%d)%%Z", i) }
-func coqBool(b bool) string     { if b { return "true" }; return "false" }
-func coqStr(s string) string    { return "\"" + strings.ReplaceAll(s, "\"", "\"\"") + "\"%string" }
+func coqN(i int) string   { return fmt.Sprintf("%d%%N", i) }
+func coqZ(i int64) string { return fmt.Sprintf("(%d)%%Z", i) }
+func coqBool(b bool) string {
+	if b {
+		return "true"
+	}
+	return "false"
+}
+func coqStr(s string) string     { return "\"" + strings.ReplaceAll(s, "\"", "\"\"") + "\"%string" }
 func coqList(xs []string) string { return "[" + strings.Join(xs, "; ") + "]" }
 func coqOptZ(p *int64) string {
 	if p == nil {
